@@ -438,6 +438,12 @@ fn enabled(m: &Model, op: Op) -> bool {
 
 /// Independent normalisation of RDATA as found in the message.
 fn norm_rdata(msg: &[u8], rtype: u16, pos: usize, rdata: &[u8]) -> Result<Vec<u8>, String> {
+    norm_rdata_ex(msg, rtype, pos, rdata, false)
+}
+
+/// `received`: the message came over the wire (a hand-built source), where a compressed SRV target is
+/// tolerated by readers; what the builder writes must never compress it.
+fn norm_rdata_ex(msg: &[u8], rtype: u16, pos: usize, rdata: &[u8], received: bool) -> Result<Vec<u8>, String> {
     let mut p = Vec::new();
     let nm = |at: usize, p: &mut Vec<(usize, usize)>| -> Result<(Vec<u8>, usize), String> {
         let (l, after) = read_name(msg, at, p)?;
@@ -445,10 +451,10 @@ fn norm_rdata(msg: &[u8], rtype: u16, pos: usize, rdata: &[u8]) -> Result<Vec<u8
     };
     let end = pos + rdata.len();
     match rtype {
-        2 => {
+        2 | 5 | 12 => {
             let (n, after) = nm(pos, &mut p)?;
             if after != end {
-                return Err("NS rdata has trailing octets".into());
+                return Err("NS/CNAME/PTR rdata has trailing octets".into());
             }
             Ok(n)
         }
@@ -477,7 +483,7 @@ fn norm_rdata(msg: &[u8], rtype: u16, pos: usize, rdata: &[u8]) -> Result<Vec<u8
             if after != end {
                 return Err("SRV rdata length".into());
             }
-            if !p.is_empty() {
+            if !p.is_empty() && !received {
                 return Err("SRV target is compressed (RFC 2782 forbids)".into());
             }
             let mut v = rdata[..6].to_vec();
@@ -1094,6 +1100,322 @@ fn part_values<T: Tgt + Send + Sync>(env: &Env, cfg: &Cfg<T>, vals: &[mc::rgen::
     env.stats.count_n(&format!("{}.every_type_cases", cfg.name), vals.len() as u64 * 3);
 }
 
+
+// ---------------------------------------------------------------------------
+// Part P: records and questions taken from ANOTHER message (ParsedName owners
+// and ParsedName inside the record data, as Message::copy_records, proxies
+// and the XFR/zone code hand them to the builder). The source messages are
+// laid out by hand with every layering of compression the parser accepts:
+// bare pointer to a flat name, labels + pointer, bare pointer to a compressed
+// name, pointer to a pointer cell, label + pointer to a pointer cell, names in
+// record data reached through two and three levels. What the builder writes
+// must read back (independent reader) as exactly the names and data the
+// independent reader finds in the source.
+// ---------------------------------------------------------------------------
+
+struct Asm {
+    b: Vec<u8>,
+    marks: std::collections::BTreeMap<&'static str, usize>,
+}
+impl Asm {
+    fn new(an: u16, ar: u16) -> Asm {
+        let mut b = vec![0x12, 0x34, 0x84, 0x00, 0, 1];
+        b.extend(an.to_be_bytes());
+        b.extend([0, 0]);
+        b.extend(ar.to_be_bytes());
+        Asm { b, marks: Default::default() }
+    }
+    fn mark(&mut self, m: &'static str) -> &mut Self {
+        self.marks.insert(m, self.b.len());
+        self
+    }
+    fn l(&mut self, l: &[u8]) -> &mut Self {
+        self.b.push(l.len() as u8);
+        self.b.extend_from_slice(l);
+        self
+    }
+    fn root(&mut self) -> &mut Self {
+        self.b.push(0);
+        self
+    }
+    fn ptr(&mut self, m: &'static str) -> &mut Self {
+        let t = self.marks[m] as u16 | 0xC000;
+        self.b.extend(t.to_be_bytes());
+        self
+    }
+    fn fixed(&mut self, rtype: u16, ttl: u32) -> &mut Self {
+        self.b.extend(rtype.to_be_bytes());
+        self.b.extend([0, 1]);
+        self.b.extend(ttl.to_be_bytes());
+        self
+    }
+    fn rdata(&mut self, f: impl FnOnce(&mut Asm)) -> &mut Self {
+        let at = self.b.len();
+        self.b.extend([0, 0]);
+        f(self);
+        let len = (self.b.len() - at - 2) as u16;
+        self.b[at..at + 2].copy_from_slice(&len.to_be_bytes());
+        self
+    }
+    fn raw(&mut self, o: &[u8]) -> &mut Self {
+        self.b.extend_from_slice(o);
+        self
+    }
+}
+
+fn parsed_sources() -> Vec<(&'static str, Vec<u8>)> {
+    let mut out = Vec::new();
+    // chain: every answer reaches its names through one more level than the one before
+    let mut a = Asm::new(5, 2);
+    a.mark("q").l(b"www").mark("ex").l(b"Example").l(b"com").root().raw(&[0, 1, 0, 1]);
+    a.ptr("q").fixed(5, 60).rdata(|a| {
+        a.mark("n1").l(b"ns").ptr("ex");
+    });
+    a.mark("o2").ptr("n1").fixed(5, 61).rdata(|a| {
+        a.mark("n2").l(b"a").ptr("n1");
+    });
+    a.mark("o3").ptr("n2").fixed(15, 62).rdata(|a| {
+        a.raw(&[0, 10]).mark("n3").ptr("n1");
+    });
+    a.l(b"mx").ptr("o2").fixed(2, 63).rdata(|a| {
+        a.ptr("o3");
+    });
+    a.ptr("n3").fixed(16, 64).rdata(|a| {
+        a.raw(&[2, b'h', b'i']);
+    });
+    a.l(b"s").ptr("ex").fixed(6, 65).rdata(|a| {
+        a.ptr("n2").l(b"h").ptr("o3").raw(&[0, 0, 0, 1, 0, 0, 0, 2, 0, 0, 0, 3, 0, 0, 0, 4, 0, 0, 0, 5]);
+    });
+    a.ptr("ex").fixed(33, 66).rdata(|a| {
+        a.raw(&[0, 1, 0, 2, 0, 3]).l(b"t").ptr("q");
+    });
+    out.push(("pointer-chain", a.b.clone()));
+    // flat: the same records without any compression (control)
+    let mut f = Asm::new(2, 0);
+    f.l(b"www").l(b"Example").l(b"com").root().raw(&[0, 1, 0, 1]);
+    f.l(b"www").l(b"example").l(b"com").root().fixed(5, 60).rdata(|a| {
+        a.l(b"ns").l(b"example").l(b"COM").root();
+    });
+    f.l(b"ns").l(b"example").l(b"com").root().fixed(15, 61).rdata(|a| {
+        a.raw(&[0, 5]).l(b"a").l(b"ns").l(b"example").l(b"com").root();
+    });
+    out.push(("flat", f.b.clone()));
+    // long suffix: a 3-label question name, owners that are a pointer into its middle and to its end
+    let mut g = Asm::new(3, 1);
+    g.mark("q").l(b"a").mark("m").l(b"b").mark("e").l(b"c").root().raw(&[0, 1, 0, 1]);
+    g.mark("p1").ptr("m").fixed(2, 70).rdata(|a| {
+        a.mark("r1").l(b"x").ptr("e");
+    });
+    g.mark("p2").l(b"y").ptr("p1").fixed(2, 71).rdata(|a| {
+        a.mark("r2").ptr("r1");
+    });
+    g.ptr("p2").fixed(15, 72).rdata(|a| {
+        a.raw(&[0, 1]).l(b"z").ptr("r2");
+    });
+    g.ptr("r2").fixed(5, 73).rdata(|a| {
+        a.ptr("p2");
+    });
+    out.push(("pointer-into-middle", g.b.clone()));
+    out
+}
+
+fn push_gen<T: Tgt, R: domain::base::record::ComposeRecord>(b: B<T>, rec: R) -> (B<T>, Option<bool>) {
+    match b {
+        B::An(mut x) => {
+            let r = x.push(rec).is_ok();
+            (B::An(x), Some(r))
+        }
+        B::Ns(mut x) => {
+            let r = x.push(rec).is_ok();
+            (B::Ns(x), Some(r))
+        }
+        B::Ar(mut x) => {
+            let r = x.push(rec).is_ok();
+            (B::Ar(x), Some(r))
+        }
+        other => (other, None),
+    }
+}
+
+fn part_parsed<T: Tgt + Send + Sync>(env: &Env, cfg: &Cfg<T>) {
+    use domain::base::name::ParsedName;
+    let sp = env.sh.sp;
+    let ctx = env.sh.ctx;
+    for (sname, src) in parsed_sources() {
+        let raw_src = read_message(&src).expect("MACHINERY: source message of part P does not parse with the independent reader");
+        assert_eq!(raw_src.end, src.len(), "MACHINERY: source message of part P has trailing octets");
+        let flat: Vec<&mc::wire::RawRecord> = raw_src.sections.iter().flatten().collect();
+        // contexts: 0 = question + all records in order; 1+k = sentinel NS, then record k alone; 100+k = record k twice;
+        // 200 = Message::copy_records of the whole source
+        let mut contexts: Vec<usize> = vec![0, 200];
+        for k in 0..flat.len() {
+            contexts.push(1 + k);
+            contexts.push(100 + k);
+        }
+        for context in contexts {
+            let res = guard(|| -> Result<(), (String, String)> {
+                let lm = Message::from_octets(&src[..]).map_err(|_| ("harness".to_string(), "source too short".to_string()))?;
+                let mut recs = Vec::new();
+                for item in lm.iter() {
+                    let (r, _) = item.map_err(|e| ("source-unreadable".to_string(), format!("Message::iter on the source: {e}")))?;
+                    let r = r.to_any_record::<AllRecordData<_, ParsedName<_>>>().map_err(|e| ("source-unreadable".to_string(), format!("to_any_record on the source: {e}")))?;
+                    recs.push(r);
+                }
+                if recs.len() != flat.len() {
+                    return Err(("source-unreadable".into(), format!("library reads {} records from the source, independent reader {}", recs.len(), flat.len())));
+                }
+                let mut b: B<T> = B::Q(MessageBuilder::from_target((cfg.make)()).map_err(|_| ("from_target".to_string(), "from_target failed".to_string()))?.question());
+                // expected records of the answer section: index into `flat` or the sentinel spec
+                let mut exp: Vec<Result<usize, usize>> = Vec::new();
+                let mut nq = 0usize;
+                let mut failed = false;
+                if context == 0 {
+                    let q = lm.first_question().ok_or(("source-unreadable".to_string(), "no question".to_string()))?;
+                    if let B::Q(mut x) = b {
+                        if x.push(q).is_ok() {
+                            nq = 1;
+                        }
+                        b = B::Q(x);
+                    }
+                }
+                if context == 200 {
+                    let target = match b {
+                        B::Q(x) => x.answer(),
+                        _ => unreachable!(),
+                    };
+                    let before = target.as_slice().to_vec();
+                    match lm.copy_records(target, |r| r.into_any_record::<AllRecordData<_, ParsedName<_>>>().ok()) {
+                        Ok(ar) => {
+                            b = B::Ar(ar);
+                            exp = (0..flat.len()).map(Ok).collect();
+                        }
+                        Err(_) => {
+                            // the target ran out of room (bounded arrays): nothing more to compare
+                            let _ = before;
+                            return Ok(());
+                        }
+                    }
+                } else {
+                    let (nb, _) = apply(b, Op::Goto(1), sp);
+                    b = nb;
+                    let mut plan: Vec<Result<usize, usize>> = Vec::new();
+                    if context == 0 {
+                        plan.extend((0..flat.len()).map(Ok));
+                    } else if context < 100 {
+                        plan.push(Err(1)); // NS b.a. -> c.b.a.
+                        plan.push(Ok(context - 1));
+                    } else {
+                        plan.push(Ok(context - 100));
+                        plan.push(Ok(context - 100));
+                    }
+                    plan.push(Err(0)); // sentinel A a.
+                    for (n, it) in plan.into_iter().enumerate() {
+                        let before = b.slice().to_vec();
+                        let (nb, r) = match it {
+                            Ok(k) => {
+                                if n % 2 == 1 {
+                                    push_gen(b, &recs[k])
+                                } else {
+                                    push_gen(b, recs[k].clone())
+                                }
+                            }
+                            Err(k) => push_any(b, sp[k].rec.clone()),
+                        };
+                        b = nb;
+                        match r {
+                            Some(true) => exp.push(it),
+                            Some(false) => {
+                                failed = true;
+                                if b.slice() != &before[..] {
+                                    return Err(("failed-push-changed-message".into(), "a refused push changed the message octets".into()));
+                                }
+                            }
+                            None => return Err(("harness".into(), "push outside a record section".into())),
+                        }
+                    }
+                }
+                let _ = failed;
+                env.sh.transitions.fetch_add(1, AO::Relaxed);
+                let octets = b.slice();
+                let raw = read_message(octets).map_err(|e| ("unparseable".to_string(), format!("independent reader fails: {e}")))?;
+                if raw.end != octets.len() {
+                    return Err(("trailing-octets".into(), format!("{} octets after the last counted record", octets.len() - raw.end)));
+                }
+                let got: Vec<&mc::wire::RawRecord> = raw.sections.iter().flatten().collect();
+                if raw.counts[0] as usize != nq || got.len() != exp.len() {
+                    return Err(("header-counts".into(), format!("header counts {:?}, successful pushes: {nq} question(s), {} record(s)", raw.counts, exp.len())));
+                }
+                if nq == 1 && (!mc::wire::labels_eq_ci(&raw.questions[0].qname, &raw_src.questions[0].qname) || raw.questions[0].qtype != raw_src.questions[0].qtype) {
+                    return Err(("question-mismatch".into(), "the copied question reads back differently".into()));
+                }
+                for (i, (r, e)) in got.iter().zip(&exp).enumerate() {
+                    match e {
+                        Err(k) => {
+                            let spc = &sp[*k];
+                            let n = norm_rdata(octets, r.rtype, r.rdata_pos, &r.rdata).map_err(|e| ("rdata-unreadable".to_string(), format!("record {i} ({}): {e}", spc.label)))?;
+                            if !mc::wire::labels_eq_ci(&r.owner, &spc.owner) || r.rtype != spc.rtype || r.class != 1 || r.ttl != spc.ttl || n != spc.rdata_norm {
+                                return Err(("neighbour-record-mismatch".into(), format!("record {i} ({}) next to the copied record reads back differently", spc.label)));
+                            }
+                        }
+                        Ok(k) => {
+                            let s = flat[*k];
+                            if !mc::wire::labels_eq_ci(&r.owner, &s.owner) {
+                                return Err(("owner-mismatch".into(), format!("record {i} (source record {k}): owner reads back as {:?}, the source has {:?}", r.owner.iter().map(|l| String::from_utf8_lossy(l).to_string()).collect::<Vec<_>>(), s.owner.iter().map(|l| String::from_utf8_lossy(l).to_string()).collect::<Vec<_>>())));
+                            }
+                            if r.rtype != s.rtype || r.class != s.class || r.ttl != s.ttl {
+                                return Err(("fixed-fields-mismatch".into(), format!("record {i} (source record {k}): type/class/ttl {}/{}/{} for {}/{}/{}", r.rtype, r.class, r.ttl, s.rtype, s.class, s.ttl)));
+                            }
+                            let want = norm_rdata_ex(&src, s.rtype, s.rdata_pos, &s.rdata, true).map_err(|e| ("harness".to_string(), format!("source rdata: {e}")))?;
+                            let have = norm_rdata(octets, r.rtype, r.rdata_pos, &r.rdata).map_err(|e| ("rdata-unreadable".to_string(), format!("record {i} (source record {k}): {e}")))?;
+                            if want != have {
+                                return Err(("rdata-mismatch".into(), format!("record {i} (source record {k}, type {}): record data reads back differently from the source", s.rtype)));
+                            }
+                        }
+                    }
+                }
+                for (at, tgt) in &raw.pointers {
+                    if *tgt >= 0x4000 || tgt >= at {
+                        return Err(("bad-pointer".into(), format!("pointer at {at} -> {tgt}")));
+                    }
+                }
+                if !cfg.compressing && !raw.pointers.is_empty() {
+                    return Err(("pointer-without-compressor".into(), format!("{} compression pointer(s) in a message built on a target that does not compress", raw.pointers.len())));
+                }
+                let out = Message::from_octets(octets).map_err(|_| ("lib-short".to_string(), "Message::from_octets fails".to_string()))?;
+                for item in out.iter() {
+                    let (r, _) = item.map_err(|e| ("lib-reader-fails".to_string(), format!("Message::iter: {e}")))?;
+                    r.to_any_record::<AllRecordData<_, ParsedName<_>>>().map_err(|e| ("lib-reader-fails".to_string(), format!("to_any_record: {e}")))?;
+                }
+                if let Some(f) = cfg.stream {
+                    let s = f(b.target());
+                    if s.len() < 2 || usize::from(u16::from_be_bytes([s[0], s[1]])) != s.len() - 2 || &s[2..] != octets {
+                        return Err(("stream-shim".into(), "length prefix differs from the message length".into()));
+                    }
+                }
+                Ok(())
+            });
+            env.stats.eval();
+            env.stats.distinct(fnv(format!("P|{}|{sname}|{context}", cfg.name).as_bytes()));
+            let case = || json!({"config": cfg.name, "part": "parsed-source", "source": sname, "context": context, "source_octets": hex(&src)});
+            match res {
+                Ok(Ok(())) => {}
+                Ok(Err((kind, what))) => {
+                    let shape = if context == 200 { "copy_records" } else if context == 0 { "all-in-order" } else if context < 100 { "alone-after-sentinel" } else { "twice" };
+                    let sig = if kind == "lib-reader-fails" || kind == "source-unreadable" {
+                        format!("C02|parsed-source|{kind}|{sname}")
+                    } else {
+                        format!("C02|{}|parsed-source|{kind}|{sname}|{shape}", comp_of(cfg.name))
+                    };
+                    ctx.violation(&sig, &format!("{what} [source {sname}, context {context} on {}]", cfg.name), case());
+                }
+                Err(p) => {
+                    ctx.violation(&format!("C02|{}|parsed-source|panic|{}", comp_of(cfg.name), panic_class(&p)), &p, case());
+                }
+            }
+        }
+    }
+}
+
 struct Timer(&'static str, std::time::Instant);
 impl Drop for Timer {
     fn drop(&mut self) {
@@ -1157,6 +1479,8 @@ fn go<T: Tgt + Send + Sync>(env: &Env, cfg: &Cfg<T>) {
     // part V: every record type
     let before = env.sh.transitions.load(AO::Relaxed);
     part_values(env, cfg, env.vals);
+    // part P: records and questions parsed from other messages
+    part_parsed(env, cfg);
     env.total_tr.fetch_add(env.sh.transitions.load(AO::Relaxed) - before, AO::Relaxed);
 }
 
